@@ -351,8 +351,11 @@ func c09Run(tb rapid.TB, c c09Case) {
 			if dl.SeqCall > seqStop && dl.Err == nil {
 				// a dial that started after the stop and produced a transport
 				prevEnd := c09PrevEnd(dials, conns, dl.Attempt)
-				if c.StopPhase == "waiting" && !prevEnd.IsZero() && tStop.Sub(prevEnd) >= c09Lower(base, max, 0) {
-					continue // the back-off timer may have fired before the stop took effect
+				if !prevEnd.IsZero() && tStop.Sub(prevEnd) >= c09Lower(base, max, 0) {
+					// The previous attempt was already over for at least the shortest possible wait when the stop
+					// took effect (also when a "connected" phase ended by itself at once): the back-off timer may
+					// have fired before, or together with, the stop, and then one more dial is legitimate.
+					continue
 				}
 				fail("attempt %d was dialled and connected after %s (#%d)", dl.Attempt, map[string]string{"cancel": "the context was cancelled", "disconnect": "Disconnect was called"}[c.Stop], seqStop)
 			}
